@@ -117,6 +117,43 @@ Section Facts.
     destruct (w_shutdown w (ev_io e i)) as [w' r]. destruct wq; cbn; exact Hu.
   Qed.
 
+  Lemma cleanup_gone e i (st : State) :
+    gone (CLEANUP e i st) = match zget i (works st) with
+                            | Some w => gone st ++ [(i, fst (w_shutdown w (ev_io e i)))]
+                            | None => gone st
+                            end.
+  Proof.
+    unfold cleanup.
+    set (st1 := match zget i (registered st) with Some _ => _ | None => st end).
+    assert (Hg : gone st1 = gone st /\ works st1 = works st) by (subst st1; destruct (zget i (registered st)); split; reflexivity).
+    destruct Hg as [Hg Hw]. rewrite Hw.
+    destruct (zget i (works st)) as [w|]; [|exact Hg].
+    destruct (w_shutdown w (ev_io e i)) as [w' r]. destruct wq; cbn; rewrite Hg; reflexivity.
+  Qed.
+
+  Lemma cleanup_oslog e i (st : State) :
+    oslog (CLEANUP e i st) = match zget i (works st), wq with
+                             | Some _, Some _ => oslog st ++ [OsClose i]
+                             | _, _ => oslog st
+                             end.
+  Proof.
+    unfold cleanup.
+    set (st1 := match zget i (registered st) with Some _ => _ | None => st end).
+    assert (Hg : oslog st1 = oslog st /\ works st1 = works st) by (subst st1; destruct (zget i (registered st)); split; reflexivity).
+    destruct Hg as [Hg Hw]. rewrite Hw.
+    destruct (zget i (works st)) as [w|]; [|destruct wq; exact Hg].
+    destruct (w_shutdown w (ev_io e i)) as [w' r]. destruct wq; cbn; rewrite Hg; reflexivity.
+  Qed.
+
+  Lemma cleanup_total e i (st : State) : total (CLEANUP e i st) = total st.
+  Proof.
+    unfold cleanup.
+    set (st1 := match zget i (registered st) with Some _ => _ | None => st end).
+    assert (Hu : total st1 = total st) by (subst st1; destruct (zget i (registered st)); reflexivity).
+    destruct (zget i (works st1)) as [w|]; [|exact Hu].
+    destruct (w_shutdown w (ev_io e i)) as [w' r]. destruct wq; cbn; exact Hu.
+  Qed.
+
   Lemma regs_of_cleanup e i j (st : State) :
     regs_of W j (CLEANUP e i st) = if (j =? i)%Z then [] else regs_of W j st.
   Proof.
@@ -778,6 +815,12 @@ Section Facts.
       + apply IH; assumption.
       + intros X; inversion X; subst. split; [exact H1|discriminate].
       + exfalso. eapply Hnc; reflexivity.
+  Qed.
+
+  Lemma reachable_inv : forall evs st' s,
+    sched_ok evs (init_state W wq) -> RUN evs (init_state W wq) = (st', s) -> inv None st'.
+  Proof.
+    intros evs st' s Hs E. eapply run_forever_inv; [apply inv_init|exact Hs|exact E].
   Qed.
 
   Theorem loop_survives : forall evs st' s,
